@@ -431,13 +431,13 @@ class TokenizerState:
         return (self.end_progs[-1].mode is not None) and self.end_progs[-1].mode.parenlevel == self.parenlev
 
     def in_continued_string(self) -> bool:
-        return (
-            bool(self.end_progs)
-            and (
-                (self.line[-2:] == "\\\n")  # single quote should have line continuation at the end
-                or (self.line[-3:] == "\\\r\n")
-            )
-        )
+        if not self.end_progs:
+            return False
+        body = self.line.removesuffix("\n").removesuffix("\r")
+        if len(body) == len(self.line):
+            return False
+        # single quote should have line continuation at the end: a backslash that is not itself escaped
+        return (len(body) - len(body.rstrip("\\"))) % 2 == 1
 
 
 @dataclasses.dataclass(slots=True)
